@@ -29,6 +29,7 @@ type FileSpec struct {
 type PackageSpec struct {
 	Files     []*FileSpec `json:"files"`
 	AutoInstr bool        `json:"autoinstr,omitempty"`
+	Twin      bool        `json:"twin,omitempty"` // also write package pm (same sources) for the modifier-mode differential
 }
 
 // Specs returns all directives of the package.
@@ -547,6 +548,12 @@ var decorPool = []string{
 // RenderFile renders one program file and returns the text plus functions
 // that must be added to package ext.
 func RenderFile(f *FileSpec, pkgAuto bool) (src, side string, extFns []string) {
+	return RenderFileAs(f, pkgAuto, "")
+}
+
+// RenderFileAs renders the file with every program registered under its name
+// plus regSuffix (used for the twin package processed in modifier mode).
+func RenderFileAs(f *FileSpec, pkgAuto bool, regSuffix string) (src, side string, extFns []string) {
 	n := names{ctx: "context", cff: "cff"}
 	if f.CtxAlias != "" {
 		n.ctx = f.CtxAlias
@@ -609,7 +616,7 @@ func RenderFile(f *FileSpec, pkgAuto bool) (src, side string, extFns []string) {
 	}
 	x.f("func init() {")
 	for _, s := range f.Progs {
-		x.f("\trt.Register(%q, %s)", s.Name, s.Name)
+		x.f("\trt.Register(%q, %s)", s.Name+regSuffix, s.Name)
 	}
 	x.f("}")
 	x.f("")
@@ -788,6 +795,16 @@ func WriteModule(dir string, p *PackageSpec, rtDir, repo string) error {
 			files["p/"+strings.TrimSuffix(f.Name, ".go")+"_decls.go"] = SideSource(side)
 		}
 		extFns = append(extFns, fns...)
+		if p.Twin {
+			src, side, _ := RenderFileAs(f, p.AutoInstr, "@mod")
+			files["pm/"+f.Name] = src
+			if side != "" {
+				files["pm/"+strings.TrimSuffix(f.Name, ".go")+"_decls.go"] = SideSource(side)
+			}
+		}
+	}
+	if p.Twin {
+		files["pm/support.go"] = SupportSource()
 	}
 	files["p/support.go"] = SupportSource()
 	files["ext/ext.go"] = ExtSource(extFns)
